@@ -25,6 +25,21 @@ package valid
 
 //@ func ToStr
 //@   pure
+//@   ensures [C05 tostr.nil] src == nil ==> result == ""
+//@   ensures [C05 tostr.string] itag(src) == tagof("string") ==> result == unbox("String", src)
+//@   ensures [C05 C20 tostr.int] itag(src) == tagof("int") ==> result == decInt(unbox("Int", src))
+//@   ensures [C05 C20 tostr.int8] itag(src) == tagof("int8") ==> result == decInt(unbox("Int", src))
+//@   ensures [C05 C20 tostr.int16] itag(src) == tagof("int16") ==> result == decInt(unbox("Int", src))
+//@   ensures [C05 C20 tostr.int32] itag(src) == tagof("int32") ==> result == decInt(unbox("Int", src))
+//@   ensures [C05 C20 tostr.int64] itag(src) == tagof("int64") ==> result == decInt(unbox("Int", src))
+//@   ensures [C05 C20 tostr.uint] itag(src) == tagof("uint") ==> result == decInt(unbox("Int", src))
+//@   ensures [C05 C20 tostr.uint8] itag(src) == tagof("uint8") ==> result == decInt(unbox("Int", src))
+//@   ensures [C05 C20 tostr.uint16] itag(src) == tagof("uint16") ==> result == decInt(unbox("Int", src))
+//@   ensures [C05 C20 tostr.uint32] itag(src) == tagof("uint32") ==> result == decInt(unbox("Int", src))
+//@   ensures [C05 C20 tostr.uint64] itag(src) == tagof("uint64") ==> result == decInt(unbox("Int", src))
+//@   ensures [C05 C20 tostr.float32] itag(src) == tagof("float32") ==> result == fmtFloat(unbox("Real", src), 102, -1, 32)
+//@   ensures [C05 C20 tostr.float64] itag(src) == tagof("float64") ==> result == fmtFloat(unbox("Real", src), 102, -1, 64)
+//@   ensures [C05 tostr.bool] itag(src) == tagof("bool") ==> result == ite(unbox("Bool", src), "true", "false")
 
 // ---------------------------------------------------------------------------
 // buffers
